@@ -20,26 +20,26 @@ package internal
 //@   modifies hAddN, hAddH, hAddKey, hAddVal, map[string][]string @ dest
 //@   ensures @count hAddN[0] == old(hAddN[0]) + flatLen(src, len(src))
 //@   ensures @adds forall j int, i int :: 0 <= j && j < len(src) && 0 <= i && i < len(src[j].Value) ==>
-//@        hAddH[old(hAddN[0]) + flatLen(src, j) + i] == dest &&
-//@        hAddKey[old(hAddN[0]) + flatLen(src, j) + i] == src[j].Name &&
-//@        hAddVal[old(hAddN[0]) + flatLen(src, j) + i] == src[j].Value[i]
+//@        hAddH[at(old(hAddN[0]) + flatLen(src, j), i)] == dest &&
+//@        hAddKey[at(old(hAddN[0]) + flatLen(src, j), i)] == src[j].Name &&
+//@        hAddVal[at(old(hAddN[0]) + flatLen(src, j), i)] == src[j].Value[i]
 //@   ensures @earlier forall p int :: p < old(hAddN[0]) ==> hAddH[p] == old(hAddH[p]) && hAddKey[p] == old(hAddKey[p]) && hAddVal[p] == old(hAddVal[p])
 //@   loop 0: invariant hAddN[0] == atpre(hAddN[0]) + flatLen(src, rangeindex + 1)
 //@           invariant forall j int, i int :: 0 <= j && j <= rangeindex && 0 <= i && i < len(src[j].Value) ==>
-//@               hAddH[atpre(hAddN[0]) + flatLen(src, j) + i] == dest &&
-//@               hAddKey[atpre(hAddN[0]) + flatLen(src, j) + i] == src[j].Name &&
-//@               hAddVal[atpre(hAddN[0]) + flatLen(src, j) + i] == src[j].Value[i]
+//@               hAddH[at(atpre(hAddN[0]) + flatLen(src, j), i)] == dest &&
+//@               hAddKey[at(atpre(hAddN[0]) + flatLen(src, j), i)] == src[j].Name &&
+//@               hAddVal[at(atpre(hAddN[0]) + flatLen(src, j), i)] == src[j].Value[i]
 //@           invariant forall p int :: p < atpre(hAddN[0]) ==> hAddH[p] == atpre(hAddH[p]) && hAddKey[p] == atpre(hAddKey[p]) && hAddVal[p] == atpre(hAddVal[p])
 //@   loop 1: invariant hAddN[0] == atpre(hAddN[0]) + flatLen(src, rangeindex0 + 1) + rangeindex + 1
 //@           invariant header == src[rangeindex0 + 1] && 0 <= rangeindex0 + 1 && rangeindex0 + 1 < len(src)
 //@           invariant forall j int, i int :: 0 <= j && j <= rangeindex0 && 0 <= i && i < len(src[j].Value) ==>
-//@               hAddH[atpre(hAddN[0]) + flatLen(src, j) + i] == dest &&
-//@               hAddKey[atpre(hAddN[0]) + flatLen(src, j) + i] == src[j].Name &&
-//@               hAddVal[atpre(hAddN[0]) + flatLen(src, j) + i] == src[j].Value[i]
+//@               hAddH[at(atpre(hAddN[0]) + flatLen(src, j), i)] == dest &&
+//@               hAddKey[at(atpre(hAddN[0]) + flatLen(src, j), i)] == src[j].Name &&
+//@               hAddVal[at(atpre(hAddN[0]) + flatLen(src, j), i)] == src[j].Value[i]
 //@           invariant forall i int :: 0 <= i && i <= rangeindex ==>
-//@               hAddH[atpre(hAddN[0]) + flatLen(src, rangeindex0 + 1) + i] == dest &&
-//@               hAddKey[atpre(hAddN[0]) + flatLen(src, rangeindex0 + 1) + i] == header.Name &&
-//@               hAddVal[atpre(hAddN[0]) + flatLen(src, rangeindex0 + 1) + i] == header.Value[i]
+//@               hAddH[at(atpre(hAddN[0]) + flatLen(src, rangeindex0 + 1), i)] == dest &&
+//@               hAddKey[at(atpre(hAddN[0]) + flatLen(src, rangeindex0 + 1), i)] == header.Name &&
+//@               hAddVal[at(atpre(hAddN[0]) + flatLen(src, rangeindex0 + 1), i)] == header.Value[i]
 //@           invariant forall p int :: p < atpre(hAddN[0]) ==> hAddH[p] == atpre(hAddH[p]) && hAddKey[p] == atpre(hAddKey[p]) && hAddVal[p] == atpre(hAddVal[p])
 
 //@ func AddTrailers
@@ -47,26 +47,26 @@ package internal
 //@   modifies hAddN, hAddH, hAddKey, hAddVal, map[string][]string @ dest
 //@   ensures @count hAddN[0] == old(hAddN[0]) + flatLen(src, len(src))
 //@   ensures @adds forall j int, i int :: 0 <= j && j < len(src) && 0 <= i && i < len(src[j].Value) ==>
-//@        hAddH[old(hAddN[0]) + flatLen(src, j) + i] == dest &&
-//@        hAddKey[old(hAddN[0]) + flatLen(src, j) + i] == "Trailer:" + src[j].Name &&
-//@        hAddVal[old(hAddN[0]) + flatLen(src, j) + i] == src[j].Value[i]
+//@        hAddH[at(old(hAddN[0]) + flatLen(src, j), i)] == dest &&
+//@        hAddKey[at(old(hAddN[0]) + flatLen(src, j), i)] == "Trailer:" + src[j].Name &&
+//@        hAddVal[at(old(hAddN[0]) + flatLen(src, j), i)] == src[j].Value[i]
 //@   ensures @earlier forall p int :: p < old(hAddN[0]) ==> hAddH[p] == old(hAddH[p]) && hAddKey[p] == old(hAddKey[p]) && hAddVal[p] == old(hAddVal[p])
 //@   loop 0: invariant hAddN[0] == atpre(hAddN[0]) + flatLen(src, rangeindex + 1)
 //@           invariant forall j int, i int :: 0 <= j && j <= rangeindex && 0 <= i && i < len(src[j].Value) ==>
-//@               hAddH[atpre(hAddN[0]) + flatLen(src, j) + i] == dest &&
-//@               hAddKey[atpre(hAddN[0]) + flatLen(src, j) + i] == "Trailer:" + src[j].Name &&
-//@               hAddVal[atpre(hAddN[0]) + flatLen(src, j) + i] == src[j].Value[i]
+//@               hAddH[at(atpre(hAddN[0]) + flatLen(src, j), i)] == dest &&
+//@               hAddKey[at(atpre(hAddN[0]) + flatLen(src, j), i)] == "Trailer:" + src[j].Name &&
+//@               hAddVal[at(atpre(hAddN[0]) + flatLen(src, j), i)] == src[j].Value[i]
 //@           invariant forall p int :: p < atpre(hAddN[0]) ==> hAddH[p] == atpre(hAddH[p]) && hAddKey[p] == atpre(hAddKey[p]) && hAddVal[p] == atpre(hAddVal[p])
 //@   loop 1: invariant hAddN[0] == atpre(hAddN[0]) + flatLen(src, rangeindex0 + 1) + rangeindex + 1
 //@           invariant header == src[rangeindex0 + 1] && 0 <= rangeindex0 + 1 && rangeindex0 + 1 < len(src)
 //@           invariant forall j int, i int :: 0 <= j && j <= rangeindex0 && 0 <= i && i < len(src[j].Value) ==>
-//@               hAddH[atpre(hAddN[0]) + flatLen(src, j) + i] == dest &&
-//@               hAddKey[atpre(hAddN[0]) + flatLen(src, j) + i] == "Trailer:" + src[j].Name &&
-//@               hAddVal[atpre(hAddN[0]) + flatLen(src, j) + i] == src[j].Value[i]
+//@               hAddH[at(atpre(hAddN[0]) + flatLen(src, j), i)] == dest &&
+//@               hAddKey[at(atpre(hAddN[0]) + flatLen(src, j), i)] == "Trailer:" + src[j].Name &&
+//@               hAddVal[at(atpre(hAddN[0]) + flatLen(src, j), i)] == src[j].Value[i]
 //@           invariant forall i int :: 0 <= i && i <= rangeindex ==>
-//@               hAddH[atpre(hAddN[0]) + flatLen(src, rangeindex0 + 1) + i] == dest &&
-//@               hAddKey[atpre(hAddN[0]) + flatLen(src, rangeindex0 + 1) + i] == "Trailer:" + header.Name &&
-//@               hAddVal[atpre(hAddN[0]) + flatLen(src, rangeindex0 + 1) + i] == header.Value[i]
+//@               hAddH[at(atpre(hAddN[0]) + flatLen(src, rangeindex0 + 1), i)] == dest &&
+//@               hAddKey[at(atpre(hAddN[0]) + flatLen(src, rangeindex0 + 1), i)] == "Trailer:" + header.Name &&
+//@               hAddVal[at(atpre(hAddN[0]) + flatLen(src, rangeindex0 + 1), i)] == header.Value[i]
 //@           invariant forall p int :: p < atpre(hAddN[0]) ==> hAddH[p] == atpre(hAddH[p]) && hAddKey[p] == atpre(hAddKey[p]) && hAddVal[p] == atpre(hAddVal[p])
 
 // ConvertToProtoHeader: one header per key of src, carrying that key's value list itself;
